@@ -196,16 +196,16 @@ Definition feed (l : list aing) : list call := flat_map calls_of (sort_aings l).
 (* an ingress as the host side sees it: the hosts of its rules (with the number of paths
    that got a backend) and of its tls blocks, in spec order; its raw annotations *)
 Record hing := {
-  h_ing : ingress;                       (* name, stamp (rules of the record are not used here) *)
-  h_rules : list (string * nat);         (* rule host ("" = default host), paths added *)
-  h_tls : list string;                   (* hosts of the tls blocks *)
-  h_raw : annots                         (* metadata.annotations *)
+  hi_ing : ingress;                       (* name, stamp (rules of the record are not used here) *)
+  hi_rules : list (string * nat);         (* rule host ("" = default host), paths added *)
+  hi_tls : list string;                   (* hosts of the tls blocks *)
+  hi_raw : annots                         (* metadata.annotations *)
 }.
-Definition hing_ltb (a b : hing) : bool := ing_ltb (h_ing a) (h_ing b).
+Definition hing_ltb (a b : hing) : bool := ing_ltb (hi_ing a) (hi_ing b).
 Definition sort_hings (l : list hing) : list hing := isort hing_ltb l.
 
 (* the addHost calls of one ingress: rules first, then tls blocks *)
-Definition host_decls (i : hing) : list string := map (fun r => norm_host (fst r)) (h_rules i) ++ h_tls i.
+Definition host_decls (i : hing) : list string := map (fun r => norm_host (fst r)) (hi_rules i) ++ hi_tls i.
 
 (* first occurrences, in order *)
 Fixpoint first_occ (seen l : list string) : list string :=
@@ -220,11 +220,11 @@ Definition decl_order (sorted : list hing) : list string := first_occ [] (flat_m
    + readAnnotations made of the annotations of ingress i *)
 Definition host_calls (keys : hing -> annots) (sorted : list hing) (h : string) : list call :=
   flat_map (fun i =>
-    map (fun _ => {| c_src := ("Ingress " ++ i_full (h_ing i))%string; c_path := h; c_ann := ann_host (keys i) |})
+    map (fun _ => {| c_src := ("Ingress " ++ i_full (hi_ing i))%string; c_path := h; c_ann := ann_host (keys i) |})
         (filter (String.eqb h) (host_decls i))) sorted.
 
 Definition host_has_paths (sorted : list hing) (h : string) : bool :=
-  existsb (fun i => existsb (fun r => String.eqb (norm_host (fst r)) h && negb (Nat.eqb (snd r) 0)) (h_rules i)) sorted.
+  existsb (fun i => existsb (fun r => String.eqb (norm_host (fst r)) h && negb (Nat.eqb (snd r) 0)) (hi_rules i)) sorted.
 
 (* what buildHostRedirect reads for one host *)
 Record hostclaim := { hc_name : string; hc_paths : bool; hc_redir : string; hc_redir_re : string }.
@@ -263,8 +263,8 @@ Section HostChain.
   Variable defaults : annots.
   Variable prefixes : list string.
 
-  (* readConfigKeys of an ingress, every pass visiting the map in the order of h_raw *)
-  Definition keys_of (i : hing) : annots := read_config_keys (map (fun p => (p, h_raw i)) prefixes).
+  (* readConfigKeys of an ingress, every pass visiting the map in the order of hi_raw *)
+  Definition keys_of (i : hing) : annots := read_config_keys (map (fun p => (p, hi_raw i)) prefixes).
 
   Definition claim_of (sorted : list hing) (h : string) : hostclaim :=
     let m := run_calls vld [] (host_calls keys_of sorted h) in
